@@ -2,7 +2,7 @@
    part unreadable, the temp files on disk are exactly those Close removes, oversized packages are refused.
    Content equality under different limits is decided on the implementation (twin oracle): in the model a
    part's bytes do not depend on where they are kept, which is exactly what 'available' guarantees. *)
-From VF Require Import Base.Prelude Generated.Consts C12.Model C12.Proofs.
+From VF Require Import Base.Prelude Generated.Consts C12.Model C12.Proofs C12.Bounds.
 
 (* every admissible limit pair, every package, every history of reads, streaming reads, writes and saves *)
 Theorem C12_limits_history : forall lim size_lim ps ops s, open_with lim size_lim ps = Some s ->
@@ -24,6 +24,20 @@ Print Assumptions C12_reject.
 Theorem C12_accept : forall lim size_lim ps, total ps <= size_lim -> exists s, open_with lim size_lim ps = Some s.
 Proof. exact open_accept. Qed.
 Print Assumptions C12_accept.
+
+(* no leak by accumulation: whatever the limits and however long the history, the temp files on disk are pairwise
+   distinct and at most one per part plus the shared-string index *)
+Theorem C12_temp_files_bounded : forall lim size_lim ps ops s, open_with lim size_lim ps = Some s ->
+  NoDup (fs (frun ops s)) /\ (length (fs (frun ops s)) <= length ps + 1)%nat.
+Proof. exact temp_files_bounded. Qed.
+Print Assumptions C12_temp_files_bounded.
+
+(* a limit no part exceeds: no temporary file is ever created, every part stays in memory *)
+Theorem C12_no_spill_no_temp : forall lim size_lim ps ops s, (forall p, In p ps -> p_size p <= lim) ->
+  open_with lim size_lim ps = Some s ->
+  fs (frun ops s) = [] /\ forall p, In p (locs (frun ops s)) -> pl_temp p = None.
+Proof. exact no_spill_no_temp. Qed.
+Print Assumptions C12_no_spill_no_temp.
 
 Example C12_ex :
   let ps := [mkPart 1 1 5000; mkPart 1 2 300; mkPart 0 0 700; mkPart 2 0 2000] in
